@@ -219,7 +219,8 @@ func stressTaskx(until time.Time) {
 			}
 		}
 	}()
-	spawn(6, until, func(id, i int) {
+	mid := time.Now().Add(time.Until(until) * 2 / 3)
+	spawn(6, mid, func(id, i int) {
 		t := q.SendCallback(func(args any) (any, error) { return id*1000 + i, nil })
 		v, err := t.Get2()
 		if err != nil || v.(int) != id*1000+i {
@@ -228,6 +229,42 @@ func stressTaskx(until time.Time) {
 		t.Get1()
 	})
 	close(done)
+	stressTaskxFull(until)
+}
+
+// full queues with the library's DEFAULT options (no size / close-channel / logger option, and
+// options given as nil / zero, which the library ignores): several unrelated queues whose senders
+// all find the buffer full, the close channel already closed so that sends return. The default
+// logger writes to os.Stderr: point that variable at the null device meanwhile (the race
+// detector writes to fd 2 itself, so its reports are unaffected).
+func stressTaskxFull(until time.Time) {
+	if null, err := os.OpenFile(os.DevNull, os.O_WRONLY, 0); err == nil {
+		old := os.Stderr
+		os.Stderr = null
+		defer func() { os.Stderr = old; null.Close() }()
+	}
+	var queues []*taskx.Queue
+	for k := 0; k < 3; k++ {
+		closeChan := make(chan struct{})
+		var q *taskx.Queue
+		switch k {
+		case 0:
+			q = taskx.NewQueue(taskx.WithSize(1), taskx.WithCloseChan(closeChan))
+		case 1:
+			q = taskx.NewQueue(taskx.WithSize(2), taskx.WithCloseChan(closeChan), taskx.WithErrorLogger(nil))
+		default:
+			q = taskx.NewQueue(taskx.WithCloseChan(closeChan), taskx.WithSize(0))
+		}
+		for len(q.C) < cap(q.C) {
+			q.SendCallback(func(any) (any, error) { return nil, nil })
+		}
+		close(closeChan)
+		queues = append(queues, q)
+	}
+	spawn(6, until, func(id, i int) {
+		q := queues[(id+i)%len(queues)]
+		q.SendCallback(func(any) (any, error) { return id, nil })
+	})
 }
 
 func main() {
